@@ -13,7 +13,12 @@ Binding B1: the real ServantProxy on a direct endpoint <-> scripted TCP peer (ha
 doInvoke / Recv, transport hooks, the counter placed just below the wrap point / below zero through VerifSetMsgID,
 payloads carry the caller identity and every peer packet a serial.  TLC validates every run against
 Trace_ClientMux; what the code reports (ids, the packet a caller took) is accepted and judged by the invariants.
-B3 for the generator: sequential and concurrent draws from the real genRequestID judged by Oracle_ClientMux.
+Runs with a transparent client filter registered (pre, post, legacy client filter, middleware: process-wide registrations, so one
+muxdrive process per kind) over the classes that end in timeouts, send errors and lost connections: what the caller of
+TarsInvoke holds at CallEnd is what counts -- a caller that reports success although doInvoke ended otherwise is accepted as
+observed (TCallEndClaim) and judged by ReplyMatches.
+B3 for the generator: sequential and concurrent draws from the real genRequestID judged by Oracle_ClientMux (bursts started
+through a channel and through a spinning start line of three goroutines).
 This module also holds the machinery shared with C09 (checks/c09.py).
 """
 import json
@@ -67,21 +72,42 @@ def split(path):
     return traces
 
 
-def drive(ctx, exe, classes, per, maxk, shards, tag, selftest=True):
-    """Runs the scenario plan in `shards` processes (the id counter and the hooks are process-wide)."""
-    def one(i):
+FILTERS = ["pre", "post", "legacy", "mw"]
+FILTER_CLASSES = ["never", "late", "mixed", "close", "refuse", "garbage", "inorder"]      # timeouts, send errors, lost connections, replies
+
+
+def drive(ctx, exe, classes, per, maxk, shards, tag, selftest=True, filters=None, stop_on_hung=False, sc_offset=0):
+    """Runs the scenario plan in `shards` processes (the id counter and the hooks are process-wide).
+    filters: client filters are process-wide registrations, so each kind gets a process of its own that runs the whole plan
+    (`shards` is ignored).  Scenario numbers are made unique per check by sc_offset; Config.drv holds what a re-run needs."""
+    jobs = [(i, "%d/%d" % (i, shards), "none", sc_offset) for i in range(shards)]
+    if filters:
+        jobs = [(i, "0/1", f, sc_offset + 1000 * i) for i, f in enumerate(filters)]
+
+    def one(job):
+        i, shard, flt, off = job
         out = os.path.join(ctx.work, "%s-%d.ndjson" % (tag, i))
         rc, so, se = sh([exe, "trace", "-seed", str(ctx.seed), "-classes", ",".join(classes), "-per", str(per), "-maxk", str(maxk),
-                         "-shard", "%d/%d" % (i, shards), "-out", out], timeout=3000)
-        return split(out), json.loads(so.strip().splitlines()[-1])
+                         "-shard", shard, "-out", out, "-filter", flt] + (["-stop-on-hung"] if stop_on_hung else []), timeout=3000)
+        ts = split(out)
+        for t in ts:
+            if t and t[0]["e"] == "Config":
+                t[0]["drv"] = "%s|%d|%d|%s|%d" % (",".join(classes), per, maxk, flt, t[0]["sc"])
+                t[0]["sc"] += off
+        summary = json.loads(so.strip().splitlines()[-1])
+        if flt != "none" and summary.get("filter_calls", 0) == 0:
+            raise Inconclusive("the '%s' client filter was registered but never ran" % flt)
+        return ts, summary
 
-    with ThreadPoolExecutor(max_workers=shards) as ex:
-        res = list(ex.map(one, range(shards)))
+    with ThreadPoolExecutor(max_workers=len(jobs)) as ex:
+        res = list(ex.map(one, jobs))
     traces, hits = [], {}
     for t, h in res:
         traces.extend(t)
         for k, v in h["hits"].items():
             hits[k] = hits.get(k, 0) + v
+        if h.get("filter_calls"):
+            hits["filter:" + h["filter"]] = hits.get("filter:" + h["filter"], 0) + h["filter_calls"]
     errs = [e for t in traces for e in t if e["e"] == "HarnessError"]
     if errs:
         raise Inconclusive("the harness could not drive %d scenario(s): %s" % (len(errs), errs[:3]))
@@ -95,14 +121,28 @@ def drive(ctx, exe, classes, per, maxk, shards, tag, selftest=True):
     return traces, hits
 
 
-def rerun(ctx, exe, classes, per, maxk, idx, tag):
+def rerun(ctx, exe, classes, per, maxk, idx, tag, flt="none"):
     out = os.path.join(ctx.work, "%s-rerun-%d.ndjson" % (tag, idx))
     sh([exe, "trace", "-seed", str(ctx.seed), "-classes", ",".join(classes), "-per", str(per), "-maxk", str(maxk), "-only", str(idx),
-        "-out", out], timeout=600)
+        "-out", out, "-filter", flt], timeout=600)
     ts = split(out)
     if len(ts) != 1:
         raise Inconclusive("re-run of scenario %d produced %d traces" % (idx, len(ts)))
     return ts[0]
+
+
+def rerun_trace(ctx, exe, t, tag):
+    """The scenario of trace t once more, alone, in a fresh process (same plan, same filter)."""
+    classes, per, maxk, flt, idx = t[0]["drv"].split("|")
+    r = rerun(ctx, exe, classes.split(","), int(per), int(maxk), int(idx), tag, flt)
+    r[0]["drv"], r[0]["sc"] = t[0]["drv"], t[0]["sc"]
+    return r
+
+
+def cls_of(t):
+    """The class named in signatures: the peer behaviour, plus the client filter registered in the process if there is one."""
+    flt = t[0].get("flt", "none")
+    return t[0]["cls"] + ("" if flt in ("none", "") else "+%s-filter" % flt)
 
 
 # ------------------------------------------------------------------ trace validation
@@ -131,28 +171,32 @@ def validate(ctx, traces, invariants, name, groups=4, timeout=1500, singly=False
         (nc, g), ts = item
         return ts, bucket(ctx, ts, cfg_text(nc, invariants), "%s-%d-%d" % (name, nc, g), timeout)
 
-    failures, states, trans, tinv = [], 0, 0, {}
+    failures, states, trans, tinv, early = [], 0, 0, {}, {}
     with ThreadPoolExecutor(max_workers=min(6, len(buckets) or 1)) as ex:
         for ts, (fails, st, tv) in ex.map(val, list(buckets.items())):
             states += st["states"]
             trans += st["transitions"]
             tinv.update(tv)
+            early.update(st["early"])
             for f in fails:
                 failures.append((ts[f["index"]], f))
-    return failures, {"states": states, "transitions": trans}, tinv
+    return failures, {"states": states, "transitions": trans, "early": early}, tinv
 
 
 def bucket(ctx, traces, cfg, name, timeout, max_failures=8):
     """tracecheck.validate, keeping TLC's output: TQuiesce prints <<"TINV", scenario, observed, predicted>> whenever
     connection.invokeNum read from the code is not 0 or differs from the model's prediction."""
     idx = list(range(len(traces)))
-    failures, states, trans, tinv = [], 0, 0, {}
+    failures, states, trans, tinv, early = [], 0, 0, {}, {}
     while idx:
         ok, bad, r = tracecheck.run_once(ctx, SPEC, "Trace_ClientMux", cfg, [traces[i] for i in idx], name, {"e": "End"}, timeout, None, False)
         states += r.distinct
         trans += r.generated
         for m in re.finditer(r'<<"TINV", (-?\d+), (-?\d+), (-?\d+)>>', r.out):
             tinv[int(m.group(1))] = (int(m.group(2)), int(m.group(3)))
+        # calls that ended with a timeout although their reply was written well before the deadline: (how many, how many behind a stray)
+        for m in re.finditer(r'<<"EARLY", (-?\d+), (\d+), (\d+)>>', r.out):
+            early[int(m.group(1))] = (int(m.group(2)), int(m.group(3)))
         if ok:
             break
         k, off, inv = bad
@@ -162,13 +206,13 @@ def bucket(ctx, traces, cfg, name, timeout, max_failures=8):
         idx.pop(k)
         if len(failures) >= max_failures:
             break
-    return failures, {"states": states, "transitions": trans}, tinv
+    return failures, {"states": states, "transitions": trans, "early": early}, tinv
 
 
 def describe(t, f):
     cfg = t[0]
     ev = f["event"]
-    return {"scenario": cfg["sc"], "class": cfg["cls"], "callers": cfg["k"], "config": cfg, "offset": f["offset"], "event": ev,
+    return {"scenario": cfg["sc"], "class": cls_of(t), "callers": cfg["k"], "config": cfg, "offset": f["offset"], "event": ev,
             "invariant": f["invariant"], "prefix": f["prefix"], "trace": t if len(t) <= 400 else t[:400]}
 
 
@@ -222,16 +266,27 @@ def id_oracle(ctx, exe):
 
 def selftests_c08(ctx, traces):
     """traces: runs TLC accepted (the corrupted copies must be rejected for the corruption, not for something else)."""
-    base = None
+    def overlapping(t):
+        """Two answered calls of run t that were outstanding at the same time (on a busy machine the callers of a small run may
+        well run one after the other: equal ids would then be no violation)."""
+        pos = {(e["e"], e["c"]): i for i, e in enumerate(t) if e["e"] in ("RegBegin", "CallEnd")}
+        ends = [e for e in t if e["e"] == "CallEnd"]
+        for x in ends:
+            for y in ends:
+                if x["c"] != y["c"] and pos.get(("RegBegin", y["c"]), 1 << 30) < pos[("CallEnd", x["c"])] < pos[("CallEnd", y["c"])] \
+                        and pos.get(("RegBegin", x["c"]), 1 << 30) < pos[("CallEnd", x["c"])]:
+                    return x, y
+        return None
+
+    base = pair = None
     for t in traces:
         ends = [e for e in t if e["e"] == "CallEnd" and e["k"] == "reply"]
-        if t[0]["cls"] in ("inorder", "permuted") and 2 <= t[0]["k"] <= 8 and len(ends) == t[0]["k"]:
-            base = t
+        if t[0]["cls"] in ("inorder", "permuted") and 2 <= t[0]["k"] <= 8 and len(ends) == t[0]["k"] and overlapping(t):
+            base, pair = t, overlapping(t)
             break
     if base is None:
         raise Inconclusive("no trace suitable for the binding self-test")
-    ends = [e for e in base if e["e"] == "CallEnd"]
-    a, b = ends[0], ends[1]
+    a, b = pair
     # (1) the recorded CallEnd says caller a was handed the payload of caller b
     m1 = [dict(e, tag=b["tag"]) if (e["e"] == "CallEnd" and e["c"] == a["c"]) else e for e in base]
     # (2) caller a took the packet addressed to caller b (UnregBegin and CallEnd agree on it)
@@ -247,7 +302,16 @@ def selftests_c08(ctx, traces):
     # (3) a call drew id 0   (4) two outstanding calls drew the same id
     ida = [e for e in base if e["e"] == "RegBegin" and e["c"] == a["c"]][0]["id"]
     idb = [e for e in base if e["e"] == "RegBegin" and e["c"] == b["c"]][0]["id"]
+    # (5) a call that doInvoke ended with a timeout returns err == nil and an empty response to its caller
+    extra = {}
+    for t in traces:
+        to = [e for e in t if e["e"] == "CallEnd" and e["k"] == "timeout"]
+        if to and t[0]["k"] <= 8 and t[-1]["e"] == "Quiesce":
+            extra["timeout-reported-as-success-with-empty-response"] = (
+                [dict(e, k="reply", p=0, rid=0, tag=0) if e is to[0] else e for e in t], "ReplyMatches")
+            break
     return require_all_rejected(ctx, C08_INV, {
+        **extra,
         "callend-tag-of-another-caller": (m1, None),
         "caller-took-another-callers-packet": (m2, "ReplyMatches"),
         "id-zero": (replace_id(base, ida, 0), "IdNonZero"),
@@ -272,7 +336,12 @@ def run(ctx):
         exe = gobuild.build(ctx, "muxdrive")
         per, maxk, shards = ctx.pick(10, 100), ctx.pick(32, 128), ctx.pick(8, 10)
         ctx.log("harness built")
-        traces, hits = drive(ctx, exe, C08_CLASSES, per, maxk, shards, "c08")
+        with ThreadPoolExecutor(max_workers=2) as dex:
+            ff = dex.submit(drive, ctx, exe, FILTER_CLASSES, ctx.pick(2, 8), 16, 1, "c08flt", False, FILTERS, False, 100000)
+            traces, hits = drive(ctx, exe, C08_CLASSES, per, maxk, shards, "c08")
+            ftraces, fhits = ff.result()
+        traces += ftraces
+        hits.update({k: v for k, v in fhits.items() if k.startswith("filter:")})
         if not quick:       # a few runs with 512 callers in flight at once on one proxy
             crowd, _ = drive(ctx, exe, ["crowd"], 4, 512, 4, "c08crowd", selftest=False)
             traces += crowd
@@ -306,10 +375,19 @@ def run(ctx):
                          % (recs[off[0] - 1]["start"], recs[off[0] - 1]["ids"][:12]))
     # ---- traces
     for t, f in failures:
-        cls = t[0]["cls"]
+        cls = cls_of(t)
         if f["invariant"]:
             sig = "C08:%s:%s" % (f["invariant"][0], cls)
             what = "run of class '%s' (%d callers) violates %s at event %s" % (cls, t[0]["k"], f["invariant"][0], json.dumps(f["event"]))
+            # the state that violates an invariant follows the event before the reported position
+            ev = next((e for e in reversed(t[max(0, f["offset"] - 3):f["offset"] + 1])
+                       if e["e"] == "CallEnd" and e.get("k") == "reply" and e.get("p") == 0), {})
+            if f["invariant"][0] == "ReplyMatches" and ev:
+                c = ev["c"]
+                inner = [e for e in t if e["e"] == "UnregBegin" and e["c"] == c]
+                what = ("caller %d of a '%s' run (%d callers) got err == nil and a response that is no packet of the peer (response id %d, empty "
+                        "payload) although doInvoke ended with '%s': neither the response to its own request nor a timeout error"
+                        % (c, cls, t[0]["k"], ev.get("rid", 0), inner[-1]["k"] if inner else "?"))
         else:
             ev = f["event"]
             sig = "C08:trace-rejected:%s:%s" % (cls, ev.get("e"))
@@ -335,8 +413,11 @@ def run(ctx):
         "samples": [sample[:60]],
         "evaluations": ncalls, "distinct_nontrivial": len({json.dumps([(e["e"], e.get("c"), e.get("q")) for e in t]) for t in traces}),
         "rule": "runs: %d scenarios of classes %s, 1..%d concurrent callers sharing one proxy, timeouts 50-300 ms (configured, per call, "
-                "context deadline shorter/longer), the id counter placed below the wrap point (%d runs) / below zero (%d runs); "
-                "evaluations = calls, distinct = distinct event orders" % (len(traces), C08_CLASSES, maxk, wrap, zero),
+                "context deadline shorter/longer), the id counter placed below the wrap point (%d runs) / below zero (%d runs); %d of the "
+                "runs with a transparent client filter registered (%s, one process each) over classes %s; "
+                "evaluations = calls, distinct = distinct event orders" % (len(traces), C08_CLASSES, maxk, wrap, zero, len(ftraces), FILTERS,
+                                                                            FILTER_CLASSES),
+        "runs_with_client_filter": {f: sum(1 for t in ftraces if t[0].get("flt") == f) for f in FILTERS},
         "model_checking": mc, "call_outcomes": outcomes,
         "peer_packets": sum(1 for t in traces for e in t if e["e"] == "PeerSend"),
         "receiver_outcomes": {k: sum(1 for t in traces for e in t if e["e"] == k) for k in ("RecvDelivered", "RecvGaveUp", "RecvBad")},
